@@ -178,9 +178,13 @@ impl World {
         let max_pos = ctx.budget("detpos", 100_000, 1_000_000) as usize;
         // CPU seconds the deterministic enumeration of one (item, layer) may cost (estimate)
         let budget_us = ctx.budget("detbudget_s", 8, 60) as f64 * 1e6;
-        let items: Vec<Prepared> = corpus::items(DET_SEED, scale).into_iter().map(|it| prepare(it, budget_us, max_pos)).collect();
-        let seeded_items: Vec<Prepared> =
-            if ctx.param("noseeded").is_some() { vec![] } else { corpus::items(ctx.seed, scale).into_iter().map(|it| prepare(it, 0.0, 1)).collect() };
+        // fixed corpus + minimal items (records with nothing behind the mandatory fields, see `minimal`)
+        let items: Vec<Prepared> = corpus::items(DET_SEED, scale).into_iter().chain(crate::minimal::items()).map(|it| prepare(it, budget_us, max_pos)).collect();
+        let seeded_items: Vec<Prepared> = if ctx.param("noseeded").is_some() {
+            vec![]
+        } else {
+            corpus::items(ctx.seed, scale).into_iter().chain(crate::minimal::items()).map(|it| prepare(it, 0.0, 1)).collect()
+        };
         let gffgz: Vec<(String, Vec<u8>)> = items
             .iter()
             .filter(|p| p.item.kind == Kind::Gff && p.item.name.contains("canonical"))
